@@ -25,7 +25,7 @@ from common import w_str, w_opt, w_list, w_bool
 
 PID = 'C09'
 PROJECTION = 'structure+positions per call, over call histories'
-RULE = ('histories of 2-5 parse jobs run in one reused worker process: all orderings of small document sets (2-3 jobs, '
+RULE = ('(plus, on the real code only: histories over a database whose first category is auto-named and holds a macro that extends the context while parsing) histories of 2-5 parse jobs run in one reused worker process: all orderings of small document sets (2-3 jobs, '
         'also with a repeated job) and random interleavings (2-5 jobs, duplicates forced in half of them), over the '
         'shared default walker database (one db object per process, or a new db per walker over the shared spec objects), '
         "docgen's 'custom' database (every standard argument kind incl. v and v{}), a database whose arguments are "
@@ -132,7 +132,30 @@ def _build_default(freeze=True):
     return {'default': db}
 
 
-_FAMILIES = {'c9kw': _build_kw, 'c9obj': _build_obj, 'c9obj2': _build_obj, 'c9bad': _build_bad,
+def _defmacro_after(parsed_node, *args, **kwargs):
+    """\\defmacro{\\name}: from here on \\name is a macro with one mandatory argument"""
+    from pylatexenc.macrospec import MacroSpec, ParsingStateDeltaExtendLatexContextDb
+    try:
+        name = parsed_node.nodeargd.argnlist[0].nodelist[0].macroname
+    except Exception:
+        return None
+    return ParsingStateDeltaExtendLatexContextDb(extend_latex_context=dict(macros=[MacroSpec(name, '{')]))
+
+
+def _build_def(freeze=True):
+    """a database whose FIRST category is auto-named and holds a macro that extends the context while parsing
+    (the model has no context-extending deltas: these histories are run on the real code only)"""
+    from pylatexenc.latexwalker import get_default_latex_context_db
+    from pylatexenc.macrospec import MacroSpec
+    db = get_default_latex_context_db()
+    db.add_context_category(None, macros=[MacroSpec('defmacro', '{', make_after_parsing_state_delta=_defmacro_after)],
+                            prepend=True)
+    if freeze:
+        db.freeze()
+    return {'c9def': db}
+
+
+_FAMILIES = {'c9def': _build_def, 'c9kw': _build_kw, 'c9obj': _build_obj, 'c9obj2': _build_obj, 'c9bad': _build_bad,
              'default': _build_default}
 _shared = {}
 
@@ -299,6 +322,10 @@ def w_sctx(cx, objs):
 
 def mk_case(jobs, origin):
     """jobs: [{'ctx': name, 's': str, 'tolerant': bool, 'db': 'shared'|'fresh'}]"""
+    if any(j['ctx'] == 'c9def' for j in jobs):
+        # outside the modelled fragment (entry 999 does not exist: model and impl both answer BADIN); the oracle
+        # (pristine interpreter, database fingerprint) is what decides these histories
+        return {'wire': [999], 'desc': {'jobs': jobs, 'origin': origin, 'unmodelled': True}, 'nt': True}
     objs = _Objs()
     ctxs = []          # wire of each distinct context value
     index = {}
@@ -387,6 +414,18 @@ def gen_cases(seed, tier):
     cases.append(mk_case([{'ctx': 'c9obj', 's': '\\ov{a{b}c}d', 'tolerant': False, 'db': 'shared'},
                           {'ctx': 'c9obj2', 's': '\\ov{a{b}c}[o]d', 'tolerant': False, 'db': 'shared'},
                           {'ctx': 'c9kw', 's': '\\kv{a{b}c}d', 'tolerant': False, 'db': 'shared'}], 'corpus'))
+    # a database extended while parsing (document-defined macros): real code only
+    ddocs = ['\\defmacro{\\foo} then \\foo{x}.', 'here \\foo{x} y', '\\defmacro{\\baz}\\baz{q}\\foo{x}', '{\\defmacro{\\foo}}\\foo{x}',
+             '\\defmacro{\\textbf}\\textbf{a}']
+    for n in (2, 3):
+        for docs in itertools.permutations(ddocs, n):
+            if n == 3 and rnd.random() < (0.8 if quick else 0.0):
+                continue
+            for tol in (False, True):
+                cases.append(mk_case([{'ctx': 'c9def', 's': s, 'tolerant': tol, 'db': 'shared'} for s in docs], 'defining-macro'))
+    cases.append(mk_case([{'ctx': 'c9def', 's': ddocs[1], 'tolerant': False, 'db': 'shared'},
+                          {'ctx': 'c9def', 's': ddocs[0], 'tolerant': False, 'db': 'fresh'},
+                          {'ctx': 'c9def', 's': ddocs[1], 'tolerant': False, 'db': 'shared'}], 'defining-macro'))
     # all orderings of small sets
     nsets = 36 if quick else 600
     for grp in GROUPS:
@@ -434,6 +473,8 @@ def run_job(j, db=False):
 
 
 def impl(c):
+    if c['desc'].get('unmodelled'):
+        return 'BADIN'
     return SEP.join(run_job(j) for j in c['desc']['jobs'])
 
 
@@ -607,7 +648,7 @@ def oracle(c):
             shared.append((j['ctx'], shared_db(j['ctx'])))
     before = {n: fingerprint(db) for n, db in shared}
     frozen_before = {n: db.frozen for n, db in shared}
-    wires_before = {n: json.dumps(spell_wire_of(db)) for n, db in shared}
+    wires_before = {n: json.dumps(spell_wire_of(db)) for n, db in shared if n != 'c9def'}
     # instances already off their invariant when this history starts were reported by the history that did it
     already = {id(p) for w, k, p in std_instances(shared) if check_instance(w, k, p)}
     results = []
@@ -651,7 +692,7 @@ def oracle(c):
             return ('context-database-modified-by-parse', {'ctx': n, 'diff': d})
         if db.frozen != frozen_before[n] or not db.frozen:
             return ('context-database-frozen-flag', {'ctx': n, 'before': frozen_before[n], 'after': db.frozen})
-        if json.dumps(spell_wire_of(db)) != wires_before[n]:
+        if n in wires_before and json.dumps(spell_wire_of(db)) != wires_before[n]:
             return ('context-database-decodes-differently', {'ctx': n})
     # (c) Inv on every real instance
     for where, key, p in std_instances(shared):
